@@ -247,7 +247,19 @@ class ThreadWorker(base.Worker):
         for s in self.sockets:
             s.close()
 
-        futures.wait(self.futures, timeout=self.cfg.graceful_timeout)
+        # let the requests in progress finish, up to graceful_timeout, and
+        # keep notifying the arbiter meanwhile: a worker that stops gracefully
+        # is not a hung worker, 'timeout' must not cut what it still serves
+        deadline = time.monotonic() + self.cfg.graceful_timeout
+        while True:
+            self.notify()
+            remaining = deadline - time.monotonic()
+            if remaining <= 0:
+                break
+            pending = futures.wait(self.futures,
+                                   timeout=min(1.0, remaining)).not_done
+            if not pending:
+                break
 
     def finish_request(self, fs):
         if fs.cancelled():
